@@ -152,6 +152,9 @@ none is listed as a finding and no check was loosened below what its statement s
   `gettimeofday`, which also work inside a synctest bubble) for 400 ms (60 ms after ten confirmed deadlocks in one process, so that a code
   change that deadlocks most schedules does not make the exploration crawl); the number of rescues is in the evidence
   (`transient_blocks_resolved_by_patience`).
+* **C14 (thorough tier only).** The trace specification prescribed *which* free tracking index a new heap entry gets (the smallest);
+  the code re-uses indices of removed entries in its own order, and after two evictions in one request the two differ. The index is an
+  internal name: traces now accept any unused index (`AnyIdx = TRUE`), the design check keeps the canonical choice as a symmetry reduction.
 * **Harness errors** (would have discredited real rejections): unlock events logged after the release were reordered against the next
   lock -> log before release, lock events after acquisition; a double `resp.Close()` put one Response into the pool twice; pooled `*Request`
   identity is unreliable -> second hook + goroutine-id mapping; a recycled `RequestCtx` needs `ResetUserValues()`; flash parsing needs
